@@ -889,6 +889,9 @@ def rule_lookahead_guard(ctx: Ctx) -> None:
     n = 0
     for i in [x for x in ast.walk(fn) if isinstance(x, ast.If)]:
         t = i.test
+        if isinstance(t, ast.Compare) and len(t.ops) == 1 and isinstance(t.ops[0], (ast.Gt, ast.GtE)) and isinstance(t.comparators[0], ast.BinOp):
+            # `len(cmds) > i + K` is the same guard written the other way round
+            t = ast.Compare(left=t.comparators[0], ops=[ast.Lt() if isinstance(t.ops[0], ast.Gt) else ast.LtE()], comparators=[t.left])
         if not (isinstance(t, ast.Compare) and len(t.ops) == 1 and isinstance(t.ops[0], (ast.Lt, ast.LtE)) and isinstance(t.left, ast.BinOp) and isinstance(t.left.op, ast.Add)
                 and isinstance(t.left.left, ast.Name) and isinstance(t.left.right, ast.Constant) and isinstance(t.comparators[0], ast.Call)
                 and call_name(t.comparators[0]) == "len" and t.comparators[0].args):
